@@ -24,7 +24,7 @@ Ev == Rec[l]
 IsEv(name) == l <= Len(Rec) /\ Ev.op = name /\ l' = l + 1
 
 EmptyPkg == [mods |-> <<Root>>, tests |-> <<>>, funcs |-> <<>>, broken |-> "none", fnpos |-> "mixed"]
-ApiCmd   == [kind |-> "api", explicit |-> FALSE, fn |-> MAIN]
+ApiCmd   == [kind |-> "api", explicit |-> FALSE, mod |-> Root, fn |-> MAIN]
 
 TraceInit == l = 1 /\ Init(EmptyPkg, ApiCmd)
 
